@@ -395,23 +395,30 @@ impl MetadataClient for LocalMetadataClient {
         metadata: &crate::sharding::ShardMetadata,
         expected_generation: u64,
     ) -> Result<()> {
-        // Check generation
-        if let Some(current) = self.shard_metadata.get(shard_id) {
-            if current.generation != expected_generation {
-                return Err(crate::Error::StaleGeneration {
-                    expected: expected_generation,
-                    actual: current.generation,
-                });
-            }
-        } else if expected_generation != 0 {
-            return Err(crate::Error::ShardNotFound(shard_id.to_string()));
-        }
-
         // Update with incremented generation
         let mut new_metadata = metadata.clone();
         new_metadata.generation = expected_generation + 1;
-        self.shard_metadata
-            .insert(shard_id.to_string(), new_metadata);
+
+        // Check the generation and store the update under one lock on the entry: with a
+        // separate look-up and insert, two threads acting on the same generation could
+        // both pass the check and the later insert would silently win.
+        match self.shard_metadata.entry(shard_id.to_string()) {
+            dashmap::mapref::entry::Entry::Occupied(mut current) => {
+                if current.get().generation != expected_generation {
+                    return Err(crate::Error::StaleGeneration {
+                        expected: expected_generation,
+                        actual: current.get().generation,
+                    });
+                }
+                current.insert(new_metadata);
+            }
+            dashmap::mapref::entry::Entry::Vacant(vacant) => {
+                if expected_generation != 0 {
+                    return Err(crate::Error::ShardNotFound(shard_id.to_string()));
+                }
+                vacant.insert(new_metadata);
+            }
+        }
 
         Ok(())
     }
